@@ -113,7 +113,7 @@ def gen_secret(rng, n):
     return "S3c%dr" % n + body + "T"
 
 
-def gen_line(rng, cfg, tag, kinds=None, ip_pool=None, mac_pool=None, host_pool=None, nslots=None, plain_tokens=False):
+def gen_line(rng, cfg, tag, kinds=None, ip_pool=None, mac_pool=None, host_pool=None, nslots=None, plain_tokens=False, host_suffix=False):
     """returns a JSON-able line spec {tag, d, slots: [[kind, value, shown]]}"""
     kinds = kinds or ["ip", "ip", "mac", "fqdn", "short", "otherhost", "kw", "pw", "drop", "fill", "fill"]
     slots = []
@@ -168,6 +168,9 @@ def gen_line(rng, cfg, tag, kinds=None, ip_pool=None, mac_pool=None, host_pool=N
             shown = v
         else:
             v = shown = rng.choice(FILLER)
+        if host_suffix and k in ("fqdn", "otherhost") and rng.random() < 0.4:
+            # DNS absolute notation, a name ending a sentence or followed by a port
+            shown = v + rng.choice([".", ".", ",", ":", ";", ":8443"])
         slots.append([k, v, shown])
     delims = DELIMS_SAFE if has_pw else DELIMS_SAFE + DELIMS_PWCLASS
     d = rng.choice(delims)
